@@ -19,7 +19,10 @@ operation table); an altered argument is a failing input of the property.
 Dataset histories over the four dataset classes x {in-memory, np_chunks}:
 bit-for-bit re-reads in random order, labels unchanged, missing stays missing
 (NaN, zero confidence-map channel, no PAF), length and index lists (compared
-with the Coq model), sample keypoints = labels * scale.  The value model
+with the Coq model), sample keypoints = labels * scale; the DERIVED targets
+(confidence maps of every class and of the four confidence-map functions) hold
+every labelled keypoint of the sample (its peak) and nothing else
+(`target_fails`; live channels compared with Dataset.run_presence).  The value model
 `gen_centroid` is compared with the real generate_centroids on every case.
 """
 from __future__ import annotations
@@ -764,6 +767,39 @@ def chunk_dense(c) -> bool:
         (f["maxi"] == 1 or len(f["cons"]) == f["maxi"])
 
 
+CONFMAP_FNS = ("make_confmaps", "make_multi_confmaps", "generate_confmaps", "generate_multiconfmaps")
+
+
+def confmap_fn_fails(n, args, res):
+    """functional API (round 5): the maps returned by the four confidence-map functions carry every labelled
+    keypoint of their input and nothing else (target_fails), whatever the NaN patterns of the other instances"""
+    import numpy as np
+    cms = res.detach().numpy()
+    if n in ("make_confmaps", "make_multi_confmaps"):
+        pts = args["points_batch"].numpy()
+        grid = (args["xv"].numpy(), args["yv"].numpy(), float(args["sigma"]))
+        stride = sigma = None
+    else:
+        pts = args["instance" if n == "generate_confmaps" else "instances"].numpy()
+        grid, stride, sigma = None, args["output_stride"], args["sigma"]
+    fails = []
+    if n in ("make_confmaps", "generate_confmaps"):
+        pts = pts.reshape(pts.shape[0], -1, 2)                      # one channel per (instance, node)
+        for b in range(pts.shape[0]):
+            fails += target_fails(cms[b], [[(f"sample {b} point {k}", p)] if np.isfinite(p).all() else []
+                                           for k, p in enumerate(pts[b])], stride, sigma, n, grid)
+        return fails
+    if pts.ndim == 3:                                               # centroids (samples, instances, 2)
+        pts = pts[:, :, None, :]
+    if n == "generate_multiconfmaps":
+        pts = pts[:, :int(args["num_instances"])]
+    for b in range(pts.shape[0]):
+        fails += target_fails(cms[b], [[(f"sample {b} instance {j} node {k}", pts[b, j, k]) for j in range(pts.shape[1])
+                                        if np.isfinite(pts[b, j, k]).all()] for k in range(pts.shape[2])],
+                              stride, sigma, n, grid)
+    return fails
+
+
 def functional_part(run, tr, verdict, tier):
     import torch
     n_per = 14 if tier == "quick" else 300
@@ -814,6 +850,14 @@ def functional_part(run, tr, verdict, tier):
             run.violation("failing-input", {"what": f"{n} altered its argument(s)", "case": c,
                                             "changes": obs["changes"][:4], "oracle_clause": "input tensors untouched"},
                           selector=sel)
+        # (b') the four confidence-map functions: every labelled keypoint of the input is in the maps, nothing else
+        if n in CONFMAP_FNS and not obs["raised"]:
+            fails = confmap_fn_fails(n, obs["args"], obs["result"])
+            if fails:
+                oracle_bad += 1
+                failing[n].append(None)
+                run.violation("failing-input", {"what": f"{n}: the maps do not hold exactly the labelled keypoints",
+                                                "case": c, "failures": fails[:4], "oracle_clause": fails[0]["clause"]})
         # (c) chunk functions: what the sample holds of the labelled frame (labels x factor, NaN pattern,
         #     padding, centroids, one crop per instance), and the same call again gives the same sample
         if n in D.CHUNK_FNS and obs["raised"]:
@@ -925,6 +969,54 @@ def make_dataset(cls_name, labels, cfg, np_chunks, chunk_dir):
     return cls(confmap_head_config=head, **kw)
 
 
+def target_fails(cms, chan_pts, stride, sigma, cls_name, grid=None):
+    """The DERIVED targets of a sample carry every labelled keypoint of the sample and nothing else (round 5).
+    cms: (channels, h, w) confidence maps; chan_pts[c]: [(description, [x, y])] = the labelled keypoints that
+    belong to channel c (positions in the sample's own coordinates, i.e. labels * scale [- crop offset]).
+    make_grid_vectors samples the image at 0, stride, 2*stride, ...; the map of ONE keypoint p is
+    exp(-|g - p|^2 / (2 (sigma*stride)^2)), so at the grid point nearest to p (within one output-stride cell;
+    clamped to the grid) it is at least that value, >= exp(-1/(4 sigma^2)) for a keypoint inside the grid:
+      (a) no NaN/inf;  (b) each labelled keypoint: channel value at its nearest grid point >= its own Gaussian
+      there - 1e-4 (a present label keeps its peak whatever the OTHER animals of the frame look like);
+      (c) nothing else: the channel never exceeds the maximum of the Gaussians of its labelled keypoints + 1e-4
+      (in particular a channel without labelled keypoint is all zero)."""
+    import numpy as np
+    fails = []
+    if not np.isfinite(cms).all():
+        return [{"clause": "derived confidence maps hold no NaN/inf", "detail": f"{cls_name}: non-finite values in "
+                 f"channels {sorted(set(np.argwhere(~np.isfinite(cms))[:, 0].tolist()))}", "f5": False}]
+    if cms.ndim != 3 or cms.shape[0] != len(chan_pts):
+        return [{"clause": "shape", "detail": f"{cls_name}: confidence_maps {cms.shape} vs {len(chan_pts)} channels",
+                 "f5": False}]
+    _, h, w = cms.shape
+    if grid is None:
+        xv = np.arange(w, dtype=np.float64) * stride
+        yv = np.arange(h, dtype=np.float64) * stride
+        se2 = 2.0 * (sigma * stride) ** 2
+    else:                      # make_confmaps / make_multi_confmaps: explicit grid vectors and sigma
+        xv, yv, se2 = np.asarray(grid[0], dtype=np.float64), np.asarray(grid[1], dtype=np.float64), 2.0 * grid[2] ** 2
+        if (h, w) != (len(yv), len(xv)):
+            return [{"clause": "shape", "detail": f"{cls_name}: maps {cms.shape} vs grid {(len(yv), len(xv))}", "f5": False}]
+    for c, pts in enumerate(chan_pts):
+        want = np.zeros((h, w))
+        for desc, p in pts:
+            g = np.exp(-((xv[None, :] - float(p[0])) ** 2 + (yv[:, None] - float(p[1])) ** 2) / se2)
+            want = np.maximum(want, g)
+            r = int(np.argmin(np.abs(yv - float(p[1]))))
+            q = int(np.argmin(np.abs(xv - float(p[0]))))
+            if not cms[c, r, q] >= g[r, q] - 1e-4:
+                fails.append({"clause": "a labelled keypoint of the sample has its peak in its confidence-map channel",
+                              "detail": f"{cls_name} channel {c}, {desc} at {[float(p[0]), float(p[1])]}: value "
+                                        f"{float(cms[c, r, q]):.4f} at grid cell ({r},{q}), own Gaussian there "
+                                        f"{float(g[r, q]):.4f}; channel max {float(cms[c].max()):.4f}; "
+                                        f"{len(pts)} labelled keypoint(s) in this channel", "f5": False})
+        if (cms[c] > want + 1e-4).any():
+            fails.append({"clause": "a confidence-map channel carries nothing but the labelled keypoints of the sample",
+                          "detail": f"{cls_name} channel {c}: exceeds the Gaussians of its {len(pts)} labelled "
+                                    f"keypoint(s) by {float((cms[c] - want).max()):.4f}", "f5": False})
+    return fails
+
+
 def check_sample(cls_name, ls, cfg, index, sample, lf_idx, inst_idx):
     """The per-sample clauses of the property.  Returns a list of failures
     {clause, detail, f5} (f5 = the failure is an invented anchor keypoint / peak of an
@@ -969,6 +1061,10 @@ def check_sample(cls_name, ls, cfg, index, sample, lf_idx, inst_idx):
                 elif not np.allclose(got - ref[1], np.array(p) * s - ref[0], atol=1e-3):
                     fails.append({"clause": "keypoints = labels * scale (up to the crop offset)",
                                   "detail": f"node {k}: {got.tolist()}", "f5": False})
+        if not fails:
+            fails += target_fails(cms[0], [[(f"frame {fi} inst {ii} node {k}", inst[0, k])] if p is not None else []
+                                           for k, p in enumerate(lab["pts"])],
+                                  cfg["output_stride"], cfg["sigma"], cls_name)
         return fails
 
     fi = lf_idx[index]
@@ -995,8 +1091,13 @@ def check_sample(cls_name, ls, cfg, index, sample, lf_idx, inst_idx):
                 fails.append({"clause": "keypoints = labels * scale", "detail":
                               f"frame {fi} row {j} node {k}: {got.tolist()} vs {(np.array(p) * s).tolist()}", "f5": False})
     n_nodes = ls["n_nodes"]
+    rows_ok = not fails
     if cls_name == "BottomUpDataset":
         cms = sample["confidence_maps"].numpy()
+        if rows_ok:
+            fails += target_fails(cms[0], [[(f"frame {fi} row {j} node {k}", insts[0, j, k]) for j, c in enumerate(cons)
+                                            if c["pts"][k] is not None] for k in range(n_nodes)],
+                                  cfg["output_stride"], cfg["sigma"], cls_name)
         for k in range(n_nodes):
             if all(c["pts"][k] is None for c in cons) and cms[0, k].any():
                 fails.append({"clause": "node missing in every instance has an all-zero confidence-map channel",
@@ -1010,6 +1111,11 @@ def check_sample(cls_name, ls, cfg, index, sample, lf_idx, inst_idx):
                               "detail": f"edge {e}", "f5": False})
     elif cls_name == "SingleInstanceDataset":
         cms = sample["confidence_maps"].numpy()
+        if rows_ok:
+            fails += target_fails(cms[0], [[(f"frame {fi} row {j} node {k}", insts[0, j, k])]
+                                           if j < len(cons) and cons[j]["pts"][k] is not None else []
+                                           for j in range(insts.shape[1]) for k in range(n_nodes)],
+                                  cfg["output_stride"], cfg["sigma"], cls_name)
         for j in range(insts.shape[1]):
             for k in range(n_nodes):
                 miss = j >= len(cons) or cons[j]["pts"][k] is None
@@ -1029,6 +1135,11 @@ def check_sample(cls_name, ls, cfg, index, sample, lf_idx, inst_idx):
                 if not np.allclose(cen[0, j], want, atol=1e-3, rtol=1e-4):
                     fails.append({"clause": "centroid = anchor or bbox midpoint of the labelled keypoints",
                                   "detail": f"row {j}: {cen[0, j].tolist()} vs {want.tolist()}", "f5": False})
+        if not fails:
+            # every non-empty instance of the frame has its centroid peak in the single centroid channel
+            fails += target_fails(sample["centroids_confidence_maps"].numpy()[0],
+                                  [[(f"frame {fi} centroid of row {j}", cen[0, j]) for j in range(len(cons))]],
+                                  cfg["output_stride"], cfg["sigma"], cls_name)
     return fails
 
 
@@ -1097,6 +1208,18 @@ def run_dataset_case(case, real_sio=None, tmp_root=None):
                                     "cen_nan": bool(_t.isnan(smp["centroid"]).any())})
             else:
                 info["all"].append({"rows": D.to_json(smp["instances"][0]), "n": int(smp["num_instances"])})
+            # which channels of the derived confidence maps carry anything (vs Dataset.run_presence)
+            if cls_name == "CenteredInstanceDataset":
+                # a labelled keypoint far outside the crop: its float32 Gaussian underflows to exactly 0 on the whole
+                # crop grid (exp(-x), x >~ 87..104) - such channels are left out of the live-flag comparison
+                import numpy as _n
+                _cm = smp["confidence_maps"][0]
+                _st, _se2 = cfg["output_stride"], 2.0 * (cfg["sigma"] * cfg["output_stride"]) ** 2
+                _gx, _gy = _n.arange(_cm.shape[2]) * _st, _n.arange(_cm.shape[1]) * _st
+                info["all"][-1]["far"] = [
+                    bool(_n.isfinite(q).all() and (_n.min((_gx - q[0]) ** 2) + _n.min((_gy - q[1]) ** 2)) / _se2 > 80.0)
+                    for q in smp["instance"][0].numpy().astype(_n.float64)]
+            info["all"][-1]["live"] = [bool(v) for v in (smp["centroids_confidence_maps" if cls_name == "CentroidDataset" else "confidence_maps"][0].flatten(1) != 0).any(1).tolist()]
         # a second dataset object over THE SAME label objects (round 4), read in another order
         uo = cfg["user_instances_only"]
         mixed = [fi for fi, fr in enumerate(ls["frames"]) if uo and D.frame_mixed(fr)]
@@ -1249,6 +1372,32 @@ def ds_model_part(run, idx_cases):
     RS = "rpair rnat (rlist (rpair (rlist (rlist rkp)) rnat))"
     msingle = core.coq_eval_sharded(pre, [term_single(ls, uo, s) for ls, uo, s, a, _ in gl], "run_single",
                                     f"rpair ({RS}) ({RS})", shard=60) if gl else []
+
+    # round 5: which channels of the derived targets are live (Dataset.run_presence: channel_live / multi_channels /
+    # single_channels of the model's sample) vs `confidence_maps[c].any()` of the real sample, for every index
+    mpres = core.coq_eval_sharded(pre, [f"({core.cbool(fixedS)}, {term(ls, uo, s, a)})" for ls, uo, s, a, _ in gl],
+                                  "run_presence", "rpair (rlist (rlist rbool)) (rpair (rlist (rlist rbool)) "
+                                  "(rlist (rlist rbool)))", shard=60) if gl else []
+    bad_live = []
+    n_live = 0
+    for (ls, uo, s, anchor, members), (pm, (psg, pc)) in zip(gl, mpres):
+        for c, info in members:
+            want = {"BottomUpDataset": pm, "SingleInstanceDataset": psg, "CenteredInstanceDataset": pc,
+                    "CentroidDataset": [[any(x)] for x in pm]}[c["cls"]]
+            got = [a.get("live") for a in info["all"]]
+            if c["cls"] == "CenteredInstanceDataset" and len(got) == len(want):
+                want = [[g if far else w for g, w, far in zip(gl_, wl, a["far"])] if len(gl_) == len(wl) == len(a["far"])
+                        else wl for gl_, wl, a in zip(got, want, info["all"])]
+            n_live += len(got)
+            if got != want:
+                k = next((i for i, (g, w) in enumerate(zip(got, want)) if g != w), None)
+                bad_live.append({"cls": c["cls"], "np_chunks": c["np_chunks"], "uo": uo, "scale": s, "anchor": anchor,
+                                 "frames": ls["frames"], "why": f"index {k}: live channels of confidence_maps: impl "
+                                 f"{got[k] if k is not None else len(got)} model {want[k] if k is not None else len(want)}"})
+    run.obligation("correspondence: Dataset.run_presence (Coq: channel_live / multi_channels / single_channels of the "
+                   "model's sample = which confidence-map channels carry a labelled keypoint) == `confidence_maps[c].any()` "
+                   "of the real sample, every index of every dataset class", not bad_live, json.dumps(bad_live[:2])[:900])
+    run.coverage["dataset_presence"] = {"samples_compared": n_live}
 
     def for_cls(cls, m, ms):
         """the run_ds result as it applies to the class: SingleInstanceDataset takes max_instances and its samples
